@@ -18,6 +18,7 @@ import (
 	"os"
 	"path/filepath"
 	"sort"
+	"strconv"
 	"strings"
 	"time"
 )
@@ -504,4 +505,158 @@ func vReadJSON(path string, v interface{}) error {
 		}
 	}
 	return json.Unmarshal(b, v)
+}
+
+// ---- targeted JSON edits (twins of the engine's vJSONSet/Del/Swap) ----
+
+func vjsonLoad(path string) (interface{}, bool) {
+	b, err := os.ReadFile(path)
+	if err != nil {
+		return nil, false
+	}
+	dec := json.NewDecoder(bytes.NewReader(b))
+	dec.UseNumber()
+	var root interface{}
+	if dec.Decode(&root) != nil {
+		return nil, false
+	}
+	return root, true
+}
+
+func vjsonStore(path string, root interface{}) bool {
+	nb, err := json.Marshal(root)
+	if err != nil {
+		return false
+	}
+	return os.WriteFile(path, nb, 0600) == nil
+}
+
+// vjsonWalk applies f to the container holding the addressed node.
+func vjsonWalk(root interface{}, jpath string, f func(parent interface{}, key string, idx int) (interface{}, bool)) (interface{}, bool) {
+	parts := strings.Split(jpath, "/")
+	var rec func(n interface{}, k int) (interface{}, bool)
+	rec = func(n interface{}, k int) (interface{}, bool) {
+		p := parts[k]
+		switch o := n.(type) {
+		case []interface{}:
+			idx, err := strconv.Atoi(p)
+			if err != nil || idx < 0 || idx >= len(o) {
+				return nil, false
+			}
+			if k == len(parts)-1 {
+				return f(o, "", idx)
+			}
+			c, ok := rec(o[idx], k+1)
+			if !ok {
+				return nil, false
+			}
+			o[idx] = c
+			return o, true
+		case map[string]interface{}:
+			if _, ok := o[p]; !ok {
+				return nil, false
+			}
+			if k == len(parts)-1 {
+				return f(o, p, -1)
+			}
+			c, ok := rec(o[p], k+1)
+			if !ok {
+				return nil, false
+			}
+			o[p] = c
+			return o, true
+		}
+		return nil, false
+	}
+	return rec(root, 0)
+}
+
+func vJSONSet(path, jpath, text string) bool {
+	root, ok := vjsonLoad(path)
+	if !ok {
+		return false
+	}
+	dec := json.NewDecoder(strings.NewReader(text))
+	dec.UseNumber()
+	var nv interface{}
+	if dec.Decode(&nv) != nil {
+		return false
+	}
+	out, ok := vjsonWalk(root, jpath, func(parent interface{}, key string, idx int) (interface{}, bool) {
+		if a, isArr := parent.([]interface{}); isArr {
+			a[idx] = nv
+			return a, true
+		}
+		m := parent.(map[string]interface{})
+		m[key] = nv
+		return m, true
+	})
+	return ok && vjsonStore(path, out)
+}
+
+func vJSONDel(path, jpath string) bool {
+	root, ok := vjsonLoad(path)
+	if !ok {
+		return false
+	}
+	out, ok := vjsonWalk(root, jpath, func(parent interface{}, key string, idx int) (interface{}, bool) {
+		if a, isArr := parent.([]interface{}); isArr {
+			return append(a[:idx:idx], a[idx+1:]...), true
+		}
+		m := parent.(map[string]interface{})
+		delete(m, key)
+		return m, true
+	})
+	return ok && vjsonStore(path, out)
+}
+
+func vjsonGet(root interface{}, jpath string) (interface{}, bool) {
+	cur := root
+	for _, p := range strings.Split(jpath, "/") {
+		switch o := cur.(type) {
+		case []interface{}:
+			idx, err := strconv.Atoi(p)
+			if err != nil || idx < 0 || idx >= len(o) {
+				return nil, false
+			}
+			cur = o[idx]
+		case map[string]interface{}:
+			v, ok := o[p]
+			if !ok {
+				return nil, false
+			}
+			cur = v
+		default:
+			return nil, false
+		}
+	}
+	return cur, true
+}
+
+func vJSONSwap(path, ja, jb string) bool {
+	root, ok := vjsonLoad(path)
+	if !ok {
+		return false
+	}
+	va, oka := vjsonGet(root, ja)
+	vb, okb := vjsonGet(root, jb)
+	if !oka || !okb {
+		return false
+	}
+	set := func(jp string, nv interface{}) bool {
+		out, ok := vjsonWalk(root, jp, func(parent interface{}, key string, idx int) (interface{}, bool) {
+			if a, isArr := parent.([]interface{}); isArr {
+				a[idx] = nv
+				return a, true
+			}
+			m := parent.(map[string]interface{})
+			m[key] = nv
+			return m, true
+		})
+		if ok {
+			root = out
+		}
+		return ok
+	}
+	return set(ja, vb) && set(jb, va) && vjsonStore(path, root)
 }
